@@ -882,9 +882,11 @@ where
         if valid_bits % Word::BITS != 0 || valid_bits == usize::MAX {
             Err(None)
         } else {
-            let truncated_state = self.state ^ (State::one() << valid_bits);
-            self.bulk
-                .extend_from_iter(bit_array_to_chunks_truncated(truncated_state).rev())?;
+            // The most significant chunk holds only the marker bit. All remaining chunks are
+            // payload, including chunks that are zero.
+            let mut chunks = bit_array_to_chunks_truncated(self.state);
+            chunks.next();
+            self.bulk.extend_from_iter(chunks.rev())?;
             Ok(self.bulk)
         }
     }
